@@ -49,6 +49,7 @@ EndDemands(e) ==
       vals(p) == {Trace[i].id[p] : i \in RetIdx} IN
   <<
     <<"H.count",       Cardinality(RetIdx) = e.n>>,
+    <<"C19.complete",  e.n = e.want>>,                               \* every requested id was returned
     <<"C19.distinct",  Cardinality(ids) = Cardinality(RetIdx)>>,
     <<"C19.bits",      e.n >= 256 => \A p \in 1..32, k \in 0..3 :
                           FreeBit(p, k) => {(v \div (2 ^ k)) % 2 : v \in vals(p)} = {0, 1}>>,
@@ -82,8 +83,10 @@ RandomStep(e) ==
          /\ Note(<< <<"C19.compose", m # {}>>,
                     <<"C19.version", IsID(e.id) /\ Version(e.id) = 4>>,
                     <<"C19.variant", IsID(e.id) /\ Variant(e.id) = 1>> >>)
+    [] e.op = "r.panic" ->
+         /\ UNCHANGED qvars /\ Note(<< <<"C19.nopanic", FALSE>> >>)     \* RandomID panicked in a goroutine
     [] e.op = "r.end" ->
          /\ UNCHANGED qvars /\ Note(EndDemands(e))
 
-IsRandomOp(e) == e.op \in {"r.reset", "r.enter", "r.exit", "r.drawn", "r.ret", "r.end"}
+IsRandomOp(e) == e.op \in {"r.reset", "r.enter", "r.exit", "r.drawn", "r.ret", "r.end", "r.panic"}
 =============================================================================
